@@ -82,7 +82,7 @@ type Res struct {
 // Fails reports whether the resolver itself fails (error / panic, directly or deferred).
 func (r Res) Fails() bool {
 	switch r.Kind {
-	case "err", "err_foreign", "valerr", "panic_err", "panic_str", "panic_int", "thunk_err":
+	case "err", "err_foreign", "err_ctx", "valerr", "panic_err", "panic_str", "panic_int", "thunk_err":
 		return true
 	}
 	return false
@@ -99,7 +99,7 @@ func (w *World) Resolve(parentType string, fd *model.FieldDef, path []interface{
 			return Res{Kind: o.Kind}
 		case "typednil":
 			return Res{Kind: "val", Val: (*Tok)(nil)}
-		case "err", "err_foreign", "panic_err", "panic_str", "panic_int", "thunk_err":
+		case "err", "err_foreign", "err_ctx", "panic_err", "panic_str", "panic_int", "thunk_err":
 			return Res{Kind: o.Kind, ErrMsg: "E:" + key}
 		case "valerr":
 			return Res{Kind: o.Kind, Val: w.defVal(fd.Type, key, args, true), ErrMsg: "E:" + key}
@@ -107,7 +107,7 @@ func (w *World) Resolve(parentType string, fd *model.FieldDef, path []interface{
 			return Res{Kind: "thunk", Val: w.defVal(fd.Type, key, args, true)}
 		case "notlist":
 			return Res{Kind: "val", Val: "not-a-list"}
-		case "badleaf", "nan", "inf", "bigint", "badenum", "leafpanic", "nantext", "sernan", "sernilptr":
+		case "badleaf", "nan", "inf", "bigint", "badenum", "leafpanic", "nantext", "bigtext", "sernan", "sernilptr":
 			return Res{Kind: "val", Val: w.badLeaf(o.Kind, fd.Type)}
 		}
 	}
@@ -134,6 +134,8 @@ func (w *World) badLeaf(kind string, t model.TypeRef) interface{} {
 		return LeafPanic{M: map[string]int{}}
 	case "nantext":
 		return "NaN" // numeric text that denotes no number: Float has no serialisation for it
+	case "bigtext":
+		return "3000000000" // numeric text outside 32 bits: no Int serialisation, read as a number or not
 	case "sernan":
 		return "SER:NaN" // the custom scalars of built schemas serialise this to NaN ...
 	case "sernilptr":
@@ -159,7 +161,7 @@ func (w *World) defVal(t model.TypeRef, key string, args map[string]interface{},
 			return nil
 		case "notlist":
 			return "not-a-list"
-		case "badleaf", "nan", "inf", "bigint", "badenum", "leafpanic", "nantext", "sernan", "sernilptr":
+		case "badleaf", "nan", "inf", "bigint", "badenum", "leafpanic", "nantext", "bigtext", "sernan", "sernilptr":
 			return w.badLeaf(o.Kind, t)
 		}
 	}
